@@ -257,3 +257,69 @@ def seq_guard(lib, p11drv, seed, idx):
     finally:
         p.close()
     return {'i': idx, 'trace': p.trace, 'findings': c.findings, 'model_dis': [], 'model_evals': 0, 'stats': stats, 'mode': mode}
+
+
+def seq_c01_create(lib, p11drv, seed, idx):
+    """C01 for the object-CREATING calls: in a session where the normal user is not logged in, no path (create, generate,
+    generate pair, unwrap, derive, copy) may produce a private object - whether the template says CKA_PRIVATE = true or
+    leaves it to the default - and token objects need an R/W session"""
+    load_ckm()
+    rng = random.Random(seed * 49979693 + idx)
+    p = P11(p11drv, lib)
+    c = Ctx(p)
+    try:
+        p.op('init')
+        p.op('inittoken tfree 31323334 tok0')
+        s0 = p.op('open t0 rw').get('h')
+        p.op('login %s 0 31323334' % s0)
+        p.op('initpin %s 35363738' % s0)
+        p.op('logout %s' % s0)
+        p.op('close %s' % s0)
+        for _ in range(rng.randint(3, 5)):
+            state = rng.choice(['public_rw', 'public_ro', 'so_rw', 'user_rw', 'user_ro'])
+            s = p.op('open t0 %s' % ('ro' if state.endswith('ro') else 'rw')).get('h')
+            if state.startswith('so'):
+                p.op('login %s 0 31323334' % s)
+            if state.startswith('user'):
+                p.op('login %s 1 35363738' % s)
+            # a public session object as base / wrapping key and as copy source (always allowed)
+            base = p.op('create %s 0=u:4 0x100=u:0x1f 1=b:0 2=b:0 0x11=x:%s 0x162=b:1 0x103=b:0 0x10c=b:1 0x106=b:1 0x107=b:1 0x104=b:1' % (s, '5a' * 16)).get('h')
+            if not base:
+                p.op('closeall t0')
+                continue
+            blob = p.op('wrap %s 0x2109 %s %s 600' % (s, base, base)).get('out', 'ab' * 24)
+            for _ in range(rng.randint(5, 9)):
+                path = rng.choice(['create', 'genkey', 'genpair', 'unwrap', 'derive', 'derive_concat', 'copy'])
+                priv = rng.choice(['1', '1', 'omit', '0'])
+                tok = rng.choice(['0', '0', '1', 'omit'])
+                tm = ('' if priv == 'omit' else ' 2=b:%s' % priv) + ('' if tok == 'omit' else ' 1=b:%s' % tok)
+                if path == 'create':
+                    r = p.op('create %s 0=u:4 0x100=u:0x1f 0x11=x:%s%s' % (s, '6b' * 16, tm))
+                elif path == 'genkey':
+                    r = p.op('genkey %s 0x1080 0=u:4 0x100=u:0x1f 0x161=u:16%s' % (s, tm))
+                elif path == 'genpair':
+                    r = p.op('genpair %s 0x1040 0x180=x:06082a8648ce3d030107 2=b:0 -- %s' % (s, tm.strip() or '0x108=b:1'))
+                elif path == 'unwrap':
+                    r = p.op('unwrap %s 0x2109 %s %s 0=u:4 0x100=u:0x1f%s' % (s, base, blob, tm))
+                elif path == 'derive':
+                    r = p.op('derive %s 0x1104:sd:%s %s 0=u:4 0x100=u:0x10 0x161=u:16%s' % (s, '11' * 16, base, tm))
+                elif path == 'derive_concat':
+                    r = p.op('derive %s 0x362:sd:0102030405060708 %s 0=u:4 0x100=u:0x10%s' % (s, base, tm))
+                else:
+                    r = p.op('copy %s %s %s' % (s, base, tm.strip() or '3=x:6363'))
+                ok = r.get('rv') == '0x0'
+                # copy without CKA_PRIVATE keeps the source's (public); every other path defaults to private
+                is_priv = priv == '1' or (priv == 'omit' and path != 'copy')
+                is_tok = tok == '1'
+                if ok and is_priv and not state.startswith('user'):
+                    c.bad('%s in a %s session created a private object (template CKA_PRIVATE %s)' % (path, state.replace('_', ' '), 'true' if priv == '1' else 'left to the default'))
+                if ok and is_tok and state.endswith('ro'):
+                    c.bad('%s in a read-only session created a token object' % path)
+                if c.findings:
+                    break
+            p.op('closeall t0')
+            if c.findings:
+                break
+    finally:
+        p.close()
+    return {'i': idx, 'trace': p.trace, 'findings': c.findings, 'model_dis': [], 'model_evals': 0, 'stats': {}}
